@@ -19,8 +19,33 @@ NAN = float("nan")
 KF2 = "fn=series_to_str,inplace=True,dtype=numeric,present>=1"
 
 
+PATTERNS = ["int-range", "float-int-nan", "float-frac-late", "float-big-int", "float-nan-late"]
+
+
+def expand(col):
+    """Long columns are stored as a pattern + length and expanded deterministically."""
+    if "pattern" not in col:
+        return col
+    n, p = col["n"], col["pattern"]
+    if p == "int-range":
+        vals, kind = [3 * i - 7 for i in range(n)], "int"
+    elif p == "float-int-nan":
+        vals, kind = [float(i) if i % 7 else NAN for i in range(n)], "float"
+    elif p == "float-frac-late":
+        vals, kind = [float(i) for i in range(n - 1)] + [n - 0.5], "float"
+    elif p == "float-big-int":
+        vals, kind = [1e15 + i for i in range(n)], "float"
+    else:
+        vals, kind = [float(i) for i in range(n - 1)] + [NAN], "float"
+    return {"kind": kind, "values": vals, "label": "long-" + p}
+
+
 @st.composite
 def column(draw):
+    if draw(st.integers(0, 19)) == 0:
+        return {"pattern": draw(st.sampled_from(PATTERNS)),
+                "n": draw(st.sampled_from([257, 1000, 4097, 20000])), "kind": "long",
+                "label": "long"}
     kind = draw(st.sampled_from(["int", "float-int", "float-frac", "float-mixed", "obj",
                                  "strdtype", "float-allnan", "empty-int", "empty-float",
                                  "empty-obj"]))
@@ -61,7 +86,7 @@ def conv_case(draw, tier):
                                                                    "yes", 1, None]))}
     if fn == "frame":
         case["return_col"] = draw(st.sampled_from([False, True, False, True, "no", 0]))
-        n = len(col["values"])
+        n = len(col.get("values", []))
         case["other"] = draw(st.lists(st.integers(0, 5), min_size=n, max_size=n))
         case["index"] = draw(st.sampled_from(["range", "str", "dup"]))
         case["colname"] = draw(st.sampled_from(["x", "col a", "é"]))
@@ -117,8 +142,11 @@ class Convert(Component):
         return conv_case(tier)
 
     def check(self, case, ctx):
-        col = case["col"]
+        col = expand(case["col"])
         n = len(col["values"])
+        if case["fn"] == "frame" and len(case.get("other", [])) != n:
+            case = dict(case)
+            case["other"] = [i % 3 for i in range(n)]
         s = canon.build_series(col["values"], col["kind"])
         s.index = pd.Index(mk_index(case["index"], n))
         exp = expected_elements(col)
@@ -128,7 +156,7 @@ class Convert(Component):
         site = "fn=%s" % ("series_to_str" if case["fn"] == "series" else
                           "dataframe_column_to_str")
         what = "%s(%s column %r, inplace=%r%s)" % (
-            site[3:], col["label"], col["values"], inplace,
+            site[3:], col["label"], col["values"] if n <= 12 else "<%d values>" % n, inplace,
             ", return_col=%r" % case.get("return_col") if case["fn"] == "frame" else "")
 
         def same_elements(series, where):
@@ -138,8 +166,12 @@ class Convert(Component):
                 ctx.violation(site + ",kind=non-string-element",
                               "%s: %s holds non-string element %r" % (what, where, bad[0]))
             if got != exp:
+                diff = [(i, g, e_) for i, (g, e_) in enumerate(zip(got, exp)) if g != e_][:4]
                 ctx.violation(site + ",kind=wrong-elements",
-                              "%s: %s holds %r, expected %r" % (what, where, got, exp))
+                              "%s: %s differs from the expected text at (position, got, "
+                              "expected) %r%s" % (what, where, diff,
+                                                  "" if len(got) == len(exp) else
+                                                  "; lengths %d vs %d" % (len(got), len(exp))))
 
         if case["fn"] == "series":
             snap = canon.snapshot(s)
